@@ -64,9 +64,19 @@ example : (addLocals (parsed 2 [(2, 7), (1, 3)]) [3, 3, 9]).2 = [5, 6, 7]
 end Orca.Locals
 
 /-- **The tie to the source (regenerated on every run).** The control-and-call skeletons of the functions this property rests on:
-    `add_local` / `add_locals` (module_functions.rs) are what M6 was transcribed from. A step moved, an early exit, guard, call or assignment added or removed breaks this obligation; renaming, comments and
+    `add_local` / `add_locals` (module_functions.rs) are what M6 was transcribed from; `add_local` is also taken word for word (its whole content is index arithmetic and one comparison). A step moved, an early exit, guard, call or assignment added or removed breaks this obligation; renaming, comments and
     formatting do not. -/
 theorem c14_add_local_code_reviewed :
     Orca.Gen.ApiOutline.add_local = Orca.ApiOutlineSpec.add_local
-    ∧ Orca.Gen.ApiOutline.add_locals = Orca.ApiOutlineSpec.add_locals :=
-  ⟨rfl, rfl⟩
+    ∧ Orca.Gen.ApiOutline.add_locals = Orca.ApiOutlineSpec.add_locals
+    ∧ Orca.Gen.ApiOutline.add_local_text = Orca.ApiOutlineSpec.add_local_text :=
+  ⟨rfl, rfl, rfl⟩
+
+/-- where the number of arguments of a function comes from when it is created (`LocalFunction::new(.., num_args, ..)`): the number of
+    *parameters* of the builder, for a function added to the module and for one that takes the place of an import alike. The returned
+    index of `add_local` is `num_args + num_locals` (M6 `addLocal`), so these two call sites are part of what C14 rests on. -/
+theorem c14_argument_count_of_built_functions :
+    "LocalFunction::new(ty,FunctionID(0),body,params.len(),Some(tag))" ∈ Orca.Gen.ApiOutline.add_local_func_with_tag
+    ∧ "LocalFunction::new(TypeID(imp_ty_id),FunctionID(*import_id),self.body.clone(),self.params.len(),Some(tag))"
+        ∈ Orca.Gen.ApiOutline.replace_import_in_module_with_tag := by
+  decide
